@@ -61,6 +61,7 @@ func main() {
 	}
 	os.MkdirAll(*out, 0o755)
 	selfCheckCodecs()
+	selfCheckH264()
 	t0 := time.Now()
 
 	var descs []*pairDesc
